@@ -16,7 +16,7 @@ THEOREMS = [{'name': f'Props.C19.{n}', 'module': M} for n in [
     'C19_completed_value', 'C19_defaults_absent', 'C19_defaults_empty_nonvalid', 'C19_defaults_empty_valid',
     'C19_defaults_provided', 'C19_parse_value', 'C19_parse_error',
     'C19_F2_witness', 'C19_defaults_documented_partial', 'emptyTakesDefault_sound', 'C19_empty_partial', 'C19_empty_value_kept',
-    'C19_empty_full_fails', 'C19_F1_witness', 'C19_F3_witness',
+    'C19_empty_full_fails', 'C19_F1_fixed', 'C19_F3_witness',
     'C19_bool', 'C19_bool_reject', 'C19_int_reject',
     'C19_idempotent_defaults', 'C19_idempotent_validate', 'C19_idempotent_parse', 'C19_file_vs_string',
     'C19_na', 'C19_format', 'C19_verbatim', 'C19_safe_verbatim', 'C19_missing_mapping']]
